@@ -28,7 +28,7 @@ VERBOSE = False
 
 def fail(section, what, **kw):
     FAILS.append((section, what, kw))
-    print("  DISAGREE [%s] %s %s" % (section, what, {k: (v if not isinstance(v, (bytes, bytearray)) else v[:40].hex())
+    print("  DISAGREE [%s] %s %s" % (section, what, {k: (v if not isinstance(v, (bytes, bytearray)) else v[:200].hex())
                                                        for k, v in kw.items()}))
 
 def count(k, n=1):
@@ -665,7 +665,9 @@ def sec_d(rng, full):
         res = lib_raw(f, [(lz.FILTER_LZMA2, o)], cap=len(want) * 2 + (1 << 22))
         gcl = 'ok' if g.status == 'ok' else ('truncated' if g.status == 'need_more' else 'error')
         lcl = ret_class(res['ret'])
-        if gcl != lcl:
+        if gcl != lcl and known_lzma2_difference(g, res, f, ds):
+            pass
+        elif gcl != lcl:
             fail('d3', 'LZMA2: glue vs liblzma', status=g.status, ret=rn(res['ret']), mode=mode, file=f if len(f) < 120 else b"")
         elif gcl == 'ok' and (g.out != res['out'] or g.consumed != res['consumed']):
             fail('d3', 'LZMA2: output/consumed', consumed=(g.consumed, res['consumed']))
@@ -814,20 +816,35 @@ def mutate(rng, f, fmap):
         f[p] = rng.choice((0, 1, 0xFF, 0x80, rng.getrandbits(8)))
     return bytes(f)
 
+def late_detection(libf, data, cap):
+    """K1: glue found an error inside the given bytes, liblzma asks for more input (LZMA_BUF_ERROR).  Accepted only
+    if liblzma reports LZMA_DATA_ERROR as soon as more bytes (of any value) follow."""
+    for fill in (b"\x00", b"\xff", b"\x5a"):
+        r2 = libf(data + fill * 80, cap)
+        if r2['ret'] != lz.DATA_ERROR:
+            return False
+    count('known.K1_late_detection')
+    return True
+
 def known_xz_difference(g, res, data):
+    if g.verdict.startswith('error:') and res['ret'] in (lz.BUF_ERROR, lz.OK):
+        return late_detection(lambda d, cap: lib_xz(d, cap), data, len(g.output) * 2 + (1 << 20))
     return False
 
 def known_alone_difference(g, res, data):
-    """K1 late detection: glue reports error:lzma:size at the first bit of the symbol that exceeds the declared
+    """K1 late detection, e.g. glue reports error:lzma:size at the first bit of the symbol that exceeds the declared
     size (like the LZMA SDK reference decoder); liblzma decodes the whole symbol first, so when the input ends
-    inside that symbol it asks for more input (LZMA_BUF_ERROR).  Confirmed by giving liblzma more bytes."""
+    inside that symbol it asks for more input (LZMA_BUF_ERROR)."""
     if g.verdict.startswith('error:') and res['ret'] in (lz.BUF_ERROR, lz.OK):
-        for fill in (b"\x00", b"\xff", b"\x5a"):
-            r2 = lib_alone(data + fill * 64, cap=len(g.out) * 2 + (1 << 20))
-            if r2['ret'] != lz.DATA_ERROR:
-                return False
-        count('known.K1_late_detection')
-        return True
+        return late_detection(lambda d, cap: lib_alone(d, cap), data, len(g.out) * 2 + (1 << 20))
+    return False
+
+def known_lzma2_difference(g, res, data, ds):
+    """K1: an LZMA chunk that needs more than its csize bytes (error:chunk:csize_short) at the very end of the input:
+    liblzma lets the LZMA decoder read past csize and notices only when such bytes exist."""
+    if g.status.startswith('error:') and res['ret'] in (lz.BUF_ERROR, lz.OK):
+        o = lz.lzma_opts(6, dict_size=ds)
+        return late_detection(lambda d, cap: lib_raw(d, [(lz.FILTER_LZMA2, o)], cap), data, len(g.out) * 2 + (1 << 22))
     return False
 
 def known_lzip_difference(g, res, data, kw):
